@@ -1,7 +1,7 @@
 import Utv.Model.C05
 /-!
 C06 — the lookup strategy as an observable: `parse_data` with `data_first_search` forced
-(utype/parser/base.py:375-388, options.py:89).  The two strategies themselves are modelled in
+(utype/parser/base.py:389-402, options.py:89).  The two strategies themselves are modelled in
 `Utv.Model.C05` (`dataFirst`, `fieldFirst`; before the fix: `dataFirstLegacy`, `fieldFirstLegacy`).
 -/
 namespace Utv.C06
@@ -9,7 +9,7 @@ open Utv.C05
 
 variable {V : Type}
 
-/-- `parse_data` with the strategy forced: the prologue, then one of the two loops (base.py:375-388) -/
+/-- `parse_data` with the strategy forced: the prologue, then one of the two loops (base.py:389-402) -/
 def parseWith [DecidableEq V] (W : World V) (P : Parser V) (o : Opts V) (data : List (Key × V)) (df : Bool) : St V :=
   let st := if df then dataFirst {} W P o data else fieldFirst {} W P o data
   { st with errs := paramsCheck o data.length ++ st.errs }
